@@ -161,6 +161,42 @@ fn c09_files<A: Subject>(run: &Run, cfg: &Cfg, thorough: bool) {
       }
     }
   }
+  // open flags: a read-only open ignores create / truncate / append, create_new on an existing file is refused
+  for (mode, flags) in [(Mode::Map, "truncate"), (Mode::Map, "append"), (Mode::Map, "create"), (Mode::Map, "all"), (Mode::MapCopyRo, "truncate"), (Mode::MapCopyRo, "append"), (Mode::MapCopyRo, "all"), (Mode::MapMut, "create"), (Mode::MapCopy, "create"), (Mode::MapMut, "create_new"), (Mode::MapCopy, "create_new"), (Mode::Map, "create_new")] {
+    for (bytes, what) in [(good.clone(), "valid file"), ({ let mut b = good.clone(); b[r0 + 4] ^= 1; b }, "id-byte+4 flipped")] {
+      for capo in [CapOpt::Absent, CapOpt::Same] {
+        std::fs::write(&p, &bytes).unwrap();
+        let mut o = open_opts(cfg, capo, false);
+        o = match flags {
+          "truncate" => o.with_truncate(true),
+          "append" => o.with_append(true),
+          "create" => o.with_create(true),
+          "create_new" => o.with_create_new(true),
+          _ => o.with_truncate(true).with_append(true).with_create(true),
+        };
+        let r = std::panic::catch_unwind(std::panic::AssertUnwindSafe(|| open::<A>(&p, o, mode).map(|a| drop(a))));
+        run.eval(1);
+        let after = std::fs::read(&p).unwrap();
+        let case = json!({"engine": "c09", "flavour": A::FLAVOUR, "cfg": cfg, "mode": mode, "flags": flags, "what": what});
+        let valid = what == "valid file";
+        let want_ok = valid && !(flags == "create_new" && mode.writable());
+        let ok = matches!(r, Ok(Ok(())));
+        if r.is_err() {
+          viol(run, "C09", &format!("open-panicked:flags-{}:{:?}", flags, mode), format!("[{} {:?} flags {}] open of {} panicked", A::FLAVOUR, mode, flags, what), case.clone());
+        }
+        if ok && !valid {
+          viol(run, "C09", &format!("accepted-mismatch:flags-{}:{:?}", flags, mode), format!("[{} {:?} flags {}] {} accepted", A::FLAVOUR, mode, flags, what), case.clone());
+        }
+        if !ok && want_ok {
+          viol(run, "C09", &format!("refused-valid:flags-{}:{:?}", flags, mode), format!("[{} {:?} flags {}] valid file refused: {:?}", A::FLAVOUR, mode, flags, r.map(|x| x.map_err(|e| e.to_string()))), case.clone());
+        }
+        // a refused open, and every read-only open, leaves the bytes that were in the file alone
+        if (!ok || !mode.writable()) && (after.len() < bytes.len() || after[..bytes.len()] != bytes[..]) {
+          viol(run, "C09", &format!("{}-open-altered-file:flags-{}:{:?}", if ok { "read-only" } else { "refused" }, flags, mode), format!("[{} {:?} {:?} flags {}] {}: file changed (len {} -> {})", A::FLAVOUR, mode, capo, flags, what, bytes.len(), after.len()), case);
+        }
+      }
+    }
+  }
   // (a) every identification byte x every value
   for i in 0..8 {
     for v in 0..=255u8 {
@@ -413,7 +449,12 @@ fn c05_case<A: Subject>(run: &Run, cfg: &Cfg, st: &Start, word: &[Op], cut: usiz
   }
   // ---- close
   let pre = r.a.snap(64);
-  let tuple = (r.a.allocated(), r.a.discarded(), r.a.data_offset(), r.a.minimum_segment_size(), r.a.magic_version(), r.a.version());
+  // the free-list kind has no accessor: it is read from the Debug rendering of the arena
+  fn kind_of<A: Subject>(a: &A) -> String {
+    let s = format!("{:?}", a);
+    s.split("freelist: ").nth(1).map(|t| t.chars().take_while(|c| c.is_alphanumeric()).collect()).unwrap_or_default()
+  }
+  let tuple = (r.a.allocated(), r.a.discarded(), r.a.data_offset(), r.a.minimum_segment_size(), r.a.magic_version(), r.a.version(), kind_of(r.a));
   let img: Vec<u8> = r.a.allocated_memory().to_vec();
   let lives: Vec<(Meta4, u8)> = r.all_live().map(|l| (l.m, l.pat)).collect();
   let dead = r.dead.clone();
@@ -425,7 +466,16 @@ fn c05_case<A: Subject>(run: &Run, cfg: &Cfg, st: &Start, word: &[Op], cut: usiz
   drop(arena);
   let on_disk = std::fs::read(&path).unwrap();
   // ---- reopen
-  let o = open_opts(cfg, capo, create);
+  // a read-only open takes the free-list kind from the file: the opener's options name another one
+  let mut ocfg = *cfg;
+  if !mode.writable() {
+    ocfg.fl = match cfg.fl {
+      Fl::None => Fl::Pessimistic,
+      Fl::Optimistic => Fl::None,
+      Fl::Pessimistic => Fl::Optimistic,
+    };
+  }
+  let o = open_opts(&ocfg, capo, create);
   let a2: A = match open::<A>(&path, o, mode) {
     Ok(a) => a,
     Err(e) => {
@@ -436,9 +486,9 @@ fn c05_case<A: Subject>(run: &Run, cfg: &Cfg, st: &Start, word: &[Op], cut: usiz
   };
   run.eval(1);
   let post = a2.snap(64);
-  let t2 = (a2.allocated(), a2.discarded(), a2.data_offset(), a2.minimum_segment_size(), a2.magic_version(), a2.version());
+  let t2 = (a2.allocated(), a2.discarded(), a2.data_offset(), a2.minimum_segment_size(), a2.magic_version(), a2.version(), kind_of(&a2));
   if t2 != tuple {
-    bad("state-tuple", format!("(allocated, discarded, data_offset, min_segment_size, magic, version) {:?} -> {:?}", tuple, t2));
+    bad("state-tuple", format!("(allocated, discarded, data_offset, min_segment_size, magic, version, freelist kind) {:?} -> {:?}", tuple, t2));
   }
   if post.nodes != pre.nodes || post.sentinel != pre.sentinel {
     bad("free-list", format!("free list {:?} -> {:?}", pre.nodes, post.nodes));
